@@ -144,7 +144,8 @@ def register(fs, like=None, **kw):
 
 
 def post_reader(file_info, data):
-    return dict(data, post="seen")
+    # (records which file it was told about: the fileset's own file, not a decompressed temporary copy)
+    return dict(data, post="seen", post_path=os.path.basename(file_info.path))
 
 
 def convert_fn(data):
@@ -373,6 +374,7 @@ class History:
             want["read_tag"] = configured(fs)["tag"]
         if configured(fs)["post"]:
             want["post"] = "seen"
+            want["post_path"] = os.path.basename(path)
         if back != want:
             self.rec.violation("content-differs", self.case(), {"after": "read()", "got": back, "want": want})
             return False
@@ -417,6 +419,7 @@ class History:
                     content["read_tag"] = configured(fs)["tag"]
                 if configured(fs)["post"]:
                     content["post"] = "seen"
+                    content["post_path"] = os.path.basename(p)
                 if convert == "fn":
                     content = convert_fn(content)
                 tw = {"stamp": configured(fs)["stamp"]} if as_path else {}
@@ -501,6 +504,7 @@ class History:
                 content["read_tag"] = configured(fs)["tag"]
             if configured(fs)["post"]:
                 content["post"] = "seen"
+                content["post_path"] = os.path.basename(p)
 
             def holds(path, want):
                 try:
@@ -683,6 +687,7 @@ class History:
             want["read_tag"] = configured(fs)["tag"]
         if configured(fs)["post"]:
             want["post"] = "seen"
+            want["post_path"] = os.path.basename(p)
         if rng.random() < 0.5:
             # call history: one read with per-call arguments (they override the defaults for that call
             # only), then the plain reads below
@@ -714,6 +719,7 @@ class History:
                 w["read_tag"] = configured(fs)["tag"]
             if configured(fs)["post"]:
                 w["post"] = "seen"
+                w["post_path"] = os.path.basename(q)
             wants.append(w)
         if got != wants:
             self.rec.violation("content-differs", self.case(), {"after": "collect()", "got": got[:3],
@@ -1005,6 +1011,50 @@ def single_file_moves(rec, rng):
         shutil.rmtree(root, ignore_errors=True)
 
 
+def default_placeholder_case(rec, rng):
+    """A fileset with a literal default for its user placeholder: write, move/copy to a path string, the
+    caller re-configures the returned fileset, then the source is written and read again."""
+    from typhon.files import FileSet, FileHandler
+    root = scratch_dir("c11d")
+    try:
+        tmpl = root + "/src/{sat}/{year}{month}{day}_{hour}{minute}{second}-{end_hour}{end_minute}{end_second}.pkl"
+        src = FileSet(path=tmpl, name="src", placeholder={"sat": "n19"},
+                      handler=FileHandler(reader=pkl_read, writer=pkl_write), read_args={"tag": "R"},
+                      worker_type="thread")
+        case = {"kind": "default-placeholder"}
+        rec.ev()
+        rec.count("default_placeholder.cases")
+        t = dt.datetime(2018, 5, rng.randrange(1, 28), rng.randrange(0, 22))
+        try:
+            src[t:t + D(minutes=10)] = {"id": 1, "payload": "a"}
+            copy = rng.random() < 0.5
+            res = src.move(root + "/tgt/{year}/{sat}_{doy}_{hour}{minute}{second}-{end_hour}{end_minute}"
+                                  "{end_second}.pkl", copy=copy)
+            # the caller re-configures what it got back
+            res.read_args["tag"] = "X"
+            res.write_args["stamp"] = "S"
+            res.set_placeholders(sat="zz[0-9]")
+            t2 = t + D(hours=1)
+            src[t2:t2 + D(minutes=10)] = {"id": 2, "payload": "b"}
+            name2 = src.get_filename((t2, t2 + D(minutes=10)))
+            got = src.read(name2)
+        except Exception as exc:
+            rec.violation("operation-exception", case, {"op": "write / move to a path / write again",
+                                                        "exception": repr(exc),
+                                                        "trace": traceback.format_exc()[-1200:]})
+            return
+        want = {"id": 2, "payload": "b", "read_tag": "R"}
+        stored = raw_read(name2) if os.path.exists(name2) else None
+        if "/n19/" not in name2 or got != want or stored != {"id": 2, "payload": "b"}:
+            rec.violation("content-differs", case,
+                          {"after": "write to the source after its copy was re-configured", "name": name2,
+                           "got": got, "want": want, "stored": stored})
+        else:
+            rec.nontriv(["default-placeholder", copy], [copy, t.isoformat()])
+    finally:
+        shutil.rmtree(root, ignore_errors=True)
+
+
 def run_shard(spec, rec):
     rng = rng_for(spec["seed"], "c11", spec["shard"])
     if spec["kind"] == "formats":
@@ -1012,6 +1062,7 @@ def run_shard(spec, rec):
         return
     try:
         single_file_moves(rec, rng_for(spec["seed"], "c11-single", spec["shard"]))
+        default_placeholder_case(rec, rng_for(spec["seed"], "c11-default", spec["shard"]))
     except Exception as exc:
         rec.inconc("harness error: %r %s" % (exc, traceback.format_exc()[-1200:]))
     for i in range(spec["n"]):
@@ -1027,6 +1078,9 @@ def run_shard(spec, rec):
 def replay(case, rec):
     if case.get("kind") == "history":
         run_history(rec, case["seed"], rng_for(case["seed"], "c11-history"))
+    elif case.get("kind") == "default-placeholder":
+        for k in range(4):
+            default_placeholder_case(rec, rng_for(k, "replay"))
     elif case.get("kind") == "single-file-move":
         single_file_moves(rec, rng_for(0, "replay"))
     elif case.get("kind") == "format":
